@@ -603,27 +603,15 @@ def attribute_nested_leak(ops, i, got, alone, field_names=(), field_defaults=Non
         # load side: the rebound loader attribute is the load key transform (v1: key case), so (cause) one of the roots must set one, and (symptom)
         # only the matching of spellings of field names may differ
         metas = class_metas(ops)
-        all_roots = leak_roots(ops, i)
-        roots = [r for r in all_roots if (metas.get(r) or {}).get('key_transform_with_load') or (metas.get(r) or {}).get('v1_key_case')]
-        if not all_roots:
+        # (a key cached as ignorable under a lenient use and then accepted under the strict root was repaired by ade1ea0 in /repo and is
+        # deliberately not attributed: KNOWN_FINDINGS ignored-key-cache-defeats-cascaded-raise, fixed)
+        roots = [r for r in leak_roots(ops, i) if (metas.get(r) or {}).get('key_transform_with_load') or (metas.get(r) or {}).get('v1_key_case')]
+        if not roots:
             return None
-        nests, _ = nest_info(ops)
         used = set(ops[i].get('uses') or [ops[i]['cls']])
-        strict_own = any((metas.get(c) or {}).get('raise_on_unknown_json_key') for c in used | {r for r in nests if nests[r] & used and r == ops[i]['cls']})
-        if roots and _only_key_matching_differs(ops[i], got, alone, field_names, field_defaults or {}, strict_own):
+        strict_own = any((metas.get(c) or {}).get('raise_on_unknown_json_key') for c in used)
+        if _only_key_matching_differs(ops[i], got, alone, field_names, field_defaults or {}, strict_own):
             return 'shared-nested-config-leak'
-        # the per-class key cache, other direction: a key that a nested class ignored (and cached as ignorable) when it was used on
-        # its own / under a lenient root is not reported when the class is now reached through its strict root
-        ci = ops[i]['cls']
-        if ci in all_roots and (metas.get(ci) or {}).get('raise_on_unknown_json_key') and alone[0] == 'err' and alone[1] == 'UnknownKeysError' \
-                and (got[0] == 'ok' or got[1] in ('MissingFields', 'UnknownKeysError')):
-            lost = set(alone[2]) - (set(got[2]) if got[0] == 'err' and got[1] == 'UnknownKeysError' else set())
-            earlier = set()
-            for oj in ops[:i]:
-                if oj['op'] == 'load' and oj['cls'] != ci:
-                    _doc_keys(oj.get('doc'), earlier, exact=True)
-            if lost and lost <= earlier:
-                return 'shared-nested-config-leak'
     return None
 
 
